@@ -1072,6 +1072,10 @@ class SymExec:
             return Enum(args[0], args[1] if len(args) > 1 else kwargs.get("start", Lin.const(0)))
         if name == "range":
             return Range(args)
+        if isinstance(n.func, ast.Attribute) and n.func.attr == "join" and len(args) == 1:
+            sep = self.eval(n.func.value, st, func, depth)
+            if isinstance(sep, Const) and isinstance(sep.v, str | bytes):
+                return Join(sep.v, args[0])
         # in-place mutation of a literal list bound to a name/attribute
         if isinstance(n.func, ast.Attribute) and n.func.attr in _LIST_MUTATORS and isinstance(n.func.value, ast.Name | ast.Attribute):
             recv = self.eval(n.func.value, st, func, depth)
@@ -1080,15 +1084,18 @@ class SymExec:
                     new = Tup(recv.items + [args[0]], "list")
                 elif n.func.attr == "extend" and len(args) == 1 and isinstance(args[0], Tup):
                     new = Tup(recv.items + args[0].items, "list")
+                elif n.func.attr == "extend" and len(args) == 1 and isinstance(args[0], Sym):
+                    new = Tup(recv.items + [Star(args[0])], "list")
                 else:
                     new = Sym(st.new_name(norm(n.func.value)))
                 self.assign(n.func.value, new, st, func, depth)
                 st.effects.append(("list-mut", n, (norm(n.func.value), n.func.attr, args)))
                 return Const(None)
         # repo callee
+        kls = self._callee_class(n, st, func)
+        if isinstance(kls, Class):
+            return self.construct(st, n, kls, args, kwargs, func, depth)
         targets, ext, precise = self.resolve(n, st, func, fval)
-        if len(targets) >= 1 and isinstance(self._callee_class(n, st, func), Class):
-            return self.construct(st, n, self._callee_class(n, st, func), args, kwargs, func, depth)
         if len(targets) == 1 and self.inline(targets[0]) and depth < self.max_depth:
             callee = targets[0]
             b = self.bind_args(n, callee, st, func, depth, evaluated=(args, kwargs), fval=fval)
@@ -1219,6 +1226,16 @@ class SymExec:
             return FALSE
         return B("atom", f"isinstance:{norm(node)}")
 
+    def e_Yield(self, n, st, func, depth):
+        v = self.eval(n.value, st, func, depth) if n.value is not None else Const(None)
+        st.effects.append(("yield", n, v))
+        return Const(None)
+
+    def e_YieldFrom(self, n, st, func, depth):
+        v = self.eval(n.value, st, func, depth)
+        st.effects.append(("yield-from", n, v))
+        return Const(None)
+
     def e_Lambda(self, n, st, func, depth):
         return Unknown("lambda")
 
@@ -1255,7 +1272,7 @@ class SymExec:
     def iter_index(self, st, node, n):
         """Symbolic 0-based index of iteration n of loop `node`: k, k+1, ... with one
         symbol per loop so that consecutive iterations are related."""
-        return Lin.atom(f"k@{node.lineno}") + n
+        return Lin.const(n)
 
     def iter_element_of(self, st, node, itv, n):
         if isinstance(itv, Tup) and not any(isinstance(x, Star) for x in itv.items):
@@ -1264,7 +1281,7 @@ class SymExec:
         if isinstance(itv, Range):
             return itv.element(self.iter_index(st, node, n))
         base = itv.name if isinstance(itv, Sym | GhostList) else f"iter@{node.lineno}"
-        return Sym(f"{base}[k@{node.lineno}+{n}]")
+        return Sym(f"{base}[{n}]")
 
     def iter_done(self, st, node, itv, n):
         pass
@@ -1318,6 +1335,16 @@ class Str:
 
     def __hash__(self):
         return hash(repr(self))
+
+
+class Join:
+    """sep.join(items)"""
+
+    def __init__(self, sep, items):
+        self.sep, self.items = sep, items
+
+    def __repr__(self):
+        return f"{self.sep!r}.join({self.items!r})"
 
 
 class Fmt:
